@@ -1,6 +1,6 @@
 SPECIFICATION Spec
 CONSTANTS
-  MaxH = 8
+  MaxH = 48
   MaxT = 8
   MaxItem = 64
 INVARIANTS Report
